@@ -69,6 +69,12 @@ const TARGETS: &[Target] = &[
     Target { name: "cut_bytes", file: "src/cut_bytes.rs", impl_trait: None, impl_self: None,
              func: "cut_bytes", calls: &[("try_into_range", "gen_ub_try_into_range")], deps: &["ub_try_into_range"],
              imports: "Model.Scan Model.Regex Model.Opt Tie.RsOpt Tie.RsStr Tie.RsList" },
+    Target { name: "fast_output_parts", file: "src/fast_lane.rs", impl_trait: None, impl_self: None,
+             func: "output_parts", calls: &[("try_into_range", "gen_ub_try_into_range")], deps: &["ub_try_into_range"],
+             imports: "Model.Scan Model.Regex Model.Opt Tie.RsOpt Tie.RsStr Tie.RsList" },
+    Target { name: "fast_cut_record", file: "src/fast_lane.rs", impl_trait: None, impl_self: None,
+             func: "cut_str_fast_lane", calls: &[("output_parts", "gen_fast_output_parts"), ("trim", "model_trim")], deps: &["fast_output_parts"],
+             imports: "Model.Scan Model.Regex Model.Opt Tie.RsOpt Tie.RsStr Tie.RsList" },
     Target { name: "fast_try_from", file: "src/fast_lane.rs", impl_trait: Some("TryFrom"), impl_self: Some("FastOpt"),
              func: "try_from", calls: &[], deps: &[], imports: "Model.Scan Model.Regex Model.Opt Tie.RsOpt" },
     Target { name: "stream_try_from", file: "src/stream.rs", impl_trait: Some("TryFrom"), impl_self: Some("StreamOpt"),
@@ -76,7 +82,7 @@ const TARGETS: &[Target] = &[
 ];
 
 #[derive(Clone, PartialEq, Debug)]
-enum Ty { I32, Usize, Bool, Side, UB, Range, Opt(Box<Ty>), List(Box<Ty>), OptRec, BType, Bytes, Str, Pair(Box<Ty>, Box<Ty>), Other }
+enum Ty { I32, Usize, Bool, Side, UB, Range, Opt(Box<Ty>), List(Box<Ty>), OptRec, FastRec, BType, Bytes, Byte, Str, Pair(Box<Ty>, Box<Ty>), Other }
 
 type R<T> = std::result::Result<T, String>;
 
@@ -97,6 +103,8 @@ struct Cx {
     rebind_ok: bool,
     /// parameters of type `&mut W` (W: Write): what is written to them is accumulated and returned with the result
     writers: Vec<String>,
+    /// the state tuple of the enclosing `for` loops, for `break`
+    loop_state: Vec<String>,
     /// what `return e` means here: the function's result, a loop's `Break`, a closure's value
     retk_stack: Vec<String>,
 }
@@ -144,11 +152,24 @@ fn ctor1(p: &str) -> Option<(&'static str, Ty)> {
 }
 
 fn field(recv: &Ty, name: &str) -> Option<(&'static str, Ty)> {
+    if *recv == Ty::FastRec {
+        // src/fast_lane.rs: struct FastOpt  ->  Tie/RsOpt.v: Record gfopt
+        return Some(match name {
+            "delimiter" => ("gf_delim", Ty::Byte),
+            "join" => ("gf_join", Ty::Bool),
+            "eol" => ("gf_eol", Ty::Byte),
+            "bounds" => ("gf_bounds", Ty::Other),
+            "only_delimited" => ("gf_only_delimited", Ty::Bool),
+            "trim" => ("gf_trim", Ty::Opt(Box::new(Ty::Other))),
+            "fallback_oob" => ("gf_fallback", Ty::Opt(Box::new(Ty::Bytes))),
+            _ => return None,
+        });
+    }
     if *recv == Ty::OptRec {
         // src/options.rs: struct Opt  ->  Model/Opt.v: Record opt
         return Some(match name {
             "delimiter" => ("o_delim", Ty::Bytes),
-            "eol" => ("o_eol", Ty::Other),
+            "eol" => ("o_eol", Ty::Byte),
             "bounds" => ("o_bounds", Ty::Other),
             "bounds_type" => ("o_btype", Ty::BType),
             "only_delimited" => ("o_only_delimited", Ty::Bool),
@@ -182,6 +203,7 @@ fn ty_of_type(t: &Type) -> (String, Ty) {
     match t {
         Type::Reference(r) => ty_of_type(&r.elem),
         Type::Slice(sl) if matches!(&*sl.elem, Type::Path(p) if path_str(&p.path) == "u8") => ("bytes".into(), Ty::Bytes),
+        Type::Slice(sl) => { let (c, t) = ty_of_type(&sl.elem); (format!("(list {})", c), Ty::List(Box::new(t))) }
         Type::Path(p) => {
             let seg = match p.path.segments.last() { Some(s) => s, None => return ("UNKNOWN".into(), Ty::Other) };
             let arg0 = || -> (String, Ty) {
@@ -199,7 +221,8 @@ fn ty_of_type(t: &Type) -> (String, Ty) {
                 "UserBounds" => ("ubound".into(), Ty::UB),
                 "UserBoundsList" => ("ublist".into(), Ty::Other),
                 "Opt" => ("opt".into(), Ty::OptRec),
-                "u8" => ("byte".into(), Ty::Other),
+                "FastOpt" => ("gfopt".into(), Ty::FastRec),
+                "u8" => ("byte".into(), Ty::Byte),
                 "str" | "String" => ("bytes".into(), Ty::Str),
                 "BoundOrFiller" => ("bof".into(), Ty::Other),
                 "Range" => ("(Z * Z)%type".into(), Ty::Range),
@@ -249,6 +272,7 @@ impl Cx {
         match e {
             Expr::Lit(l) => match &l.lit { Lit::Bool(_) => Ty::Bool, Lit::Int(i) => match i.suffix() { "usize" => Ty::Usize, _ => Ty::I32 }, Lit::Str(_) => Ty::Str, _ => Ty::Other },
             Expr::Index(ix) if matches!(&*ix.index, Expr::Range(_)) => self.ty(&ix.expr),
+            Expr::Index(ix) => match self.ty(&ix.expr) { Ty::List(t) => *t, Ty::Bytes => Ty::Byte, _ => Ty::Other },
             Expr::Path(p) if path_str(&p.path).starts_with("BoundsType::") => Ty::BType,
             Expr::Path(p) => { let s = path_str(&p.path); self.lookup(&s).unwrap_or(if unit_ctor(&s).map_or(false, |c| c == "true" || c == "false") { Ty::Bool } else { Ty::Other }) }
             Expr::Paren(p) => self.ty(&p.expr),
@@ -265,11 +289,13 @@ impl Cx {
                 "find" => Ty::Opt(Box::new(Ty::Usize)),
                 "is_empty" => Ty::Bool,
                 "into" | "or_else" => self.ty(&m.receiver),
+                "is_ok" | "is_err" => Ty::Bool,
                 "parse" => Ty::Opt(Box::new(Ty::I32)),
                 "first" => Ty::Opt(Box::new(Ty::Other)),
                 "unwrap" | "expect" => match self.ty(&m.receiver) { Ty::Opt(t) => *t, _ => Ty::Other },
                 name => self.call_ty.get(name).cloned().unwrap_or(Ty::Other),
             },
+            Expr::Call(c) if matches!(&*c.func, Expr::Path(p) if path_str(&p.path) == "memchr::memchr_iter") => Ty::List(Box::new(Ty::Usize)),
             Expr::Call(c) => match &*c.func {
                 Expr::Path(p) if (path_str(&p.path) == "Some" || path_str(&p.path) == "Ok") && c.args.len() == 1 => Ty::Opt(Box::new(self.ty(&c.args[0]))),
                 Expr::Path(p) => self.call_ty.get(&path_str(&p.path)).cloned().unwrap_or(Ty::Other),
@@ -338,7 +364,7 @@ impl Cx {
                 }
             }
             Expr::Binary(b) => {
-                let arith = matches!(b.op, BinOp::Add(_) | BinOp::Sub(_) | BinOp::Mul(_));
+                let arith = matches!(b.op, BinOp::Add(_) | BinOp::Sub(_) | BinOp::Mul(_) | BinOp::AddAssign(_) | BinOp::SubAssign(_));
                 if arith { return Ok(None); }
                 if matches!(b.op, BinOp::Le(_) | BinOp::Lt(_) | BinOp::Ge(_) | BinOp::Gt(_)) && matches!(self.int_ty(&b.left, &b.right), Ty::Opt(_)) { return Ok(None); }
                 let l = match self.pure(&b.left)? { Some(x) => x, None => return Ok(None) };
@@ -354,8 +380,8 @@ impl Cx {
                     closure_is_harmless_bail(&m.args[0])?;
                     return self.pure(&m.receiver);
                 }
-                if name == "into" && self.ty(&m.receiver) == Ty::Str { return self.pure(&m.receiver); }
-                if ["expect", "unwrap", "collect", "map", "try_into", "into", "for_each", "any", "flat_map", "try_for_each", "write_all"].contains(&name.as_str()) { return Ok(None); }
+                if name == "into" && matches!(self.ty(&m.receiver), Ty::Str | Ty::Byte) { return self.pure(&m.receiver); }
+                if ["expect", "unwrap", "collect", "map", "try_into", "into", "for_each", "any", "flat_map", "try_for_each", "write_all", "push", "clear"].contains(&name.as_str()) { return Ok(None); }
                 let recv = match self.pure(&m.receiver)? { Some(x) => x, None => return Ok(None) };
                 let mut args = vec![];
                 for a in &m.args { match self.pure(a)? { Some(x) => args.push(x), None => return Ok(None) } }
@@ -377,7 +403,9 @@ impl Cx {
                         format!("(parse_i32 {})", recv)
                     }
                     ("first", 0) => format!("(hd_error {})", recv),
-                    ("is_none", 0) => format!("(match {} with None => true | _ => false end)", recv),
+                    ("is_none", 0) | ("is_err", 0) => format!("(match {} with None => true | _ => false end)", recv),
+                    ("is_ok", 0) => format!("(match {} with None => false | _ => true end)", recv),
+                    ("into", 0) if self.ty(&m.receiver) == Ty::Byte => recv,
                     ("is_some", 0) => format!("(match {} with None => false | _ => true end)", recv),
                     _ => return Err(format!("method `{}`", name)),
                 }
@@ -390,6 +418,7 @@ impl Cx {
                 for a in &c.args { match self.pure(a)? { Some(x) => args.push(x), None => return Ok(None) } }
                 if f == "Err" { "None".to_string() }
                 else if f == "Vec::new" && args.is_empty() { "[]".to_string() }
+                else if f == "memchr::memchr_iter" && args.len() == 2 { format!("(memchr_iter {} {})", args[0], args[1]) }
                 else if let Some((g, _)) = ctor1(&f) { if args.len() != 1 { return Err("constructor arity".into()); } format!("({} {})", g, args[0]) }
                 else { return Err(format!("call of `{}`", f)); }
             }
@@ -397,6 +426,11 @@ impl Cx {
                 let mut xs = vec![];
                 for a in &t.elems { match self.pure(a)? { Some(x) => xs.push(x), None => return Ok(None) } }
                 if xs.is_empty() { "tt".into() } else { format!("({})", xs.join(", ")) }
+            }
+            Expr::Array(t) => {
+                let mut xs = vec![];
+                for a in &t.elems { match self.pure(a)? { Some(x) => xs.push(x), None => return Ok(None) } }
+                format!("[{}]", xs.join("; "))
             }
             Expr::Struct(s) if struct_ctor(&path_str(&s.path)).is_some() => return Ok(None),
             Expr::Struct(s) if path_str(&s.path) == "UserBounds" => {
@@ -449,7 +483,7 @@ impl Cx {
                     if irr { "true".to_string() } else { format!("(match {} with {} => true | _ => false end)", ev, ps) }
                 } else { return Ok(None); }
             }
-            Expr::If(_) | Expr::Match(_) | Expr::Block(_) | Expr::Return(_) | Expr::Try(_) | Expr::Assign(_) | Expr::ForLoop(_) | Expr::Closure(_) | Expr::Index(_) => return Ok(None),
+            Expr::If(_) | Expr::Match(_) | Expr::Block(_) | Expr::Return(_) | Expr::Try(_) | Expr::Assign(_) | Expr::ForLoop(_) | Expr::Closure(_) | Expr::Index(_) | Expr::Break(_) => return Ok(None),
             other => return Err(format!("expression kind at line {}", other.span().start().line)),
         }))
     }
@@ -560,7 +594,7 @@ impl Cx {
                 self.env.pop();
                 self.tr(&c.expr, &format!("(fun {} => ({} {}))", x, k, body))
             }
-            Expr::Binary(b) => {
+            Expr::Binary(b) if !matches!(b.op, BinOp::AddAssign(_) | BinOp::SubAssign(_)) => {
                 let t = self.int_ty(&b.left, &b.right);
                 match b.op {
                     BinOp::Add(_) | BinOp::Sub(_) | BinOp::Mul(_) => {
@@ -628,6 +662,34 @@ impl Cx {
                 let cond = self.tr(&i.cond, &format!("(fun {} : bool => (if {} then {} else {}))", c, c, th, el))?;
                 Ok(Self::wrap(&jn, cond))
             }
+            Expr::Break(b) => {
+                if b.label.is_some() || b.expr.is_some() { return Err("labelled break".into()); }
+                let st = self.loop_state.last().cloned().ok_or("break outside a for loop")?;
+                Ok(format!("(Ret (Stop {}))", st))
+            }
+            Expr::Binary(b) if matches!(b.op, BinOp::AddAssign(_) | BinOp::SubAssign(_)) => {
+                let name = match &*b.left { Expr::Path(p) => path_str(&p.path), _ => return Err("compound assignment to something that is not a variable".into()) };
+                if !self.muts.contains(&name) { return Err(format!("`{}` is not a `let mut`", name)); }
+                let pre = match self.ty(&b.left) { Ty::Usize => "usize", _ => "i32" };
+                let opn = if matches!(b.op, BinOp::AddAssign(_)) { "add" } else { "sub" };
+                let (y, v) = (self.fresh("t"), self.fresh("v"));
+                let c = self.coqname(&name);
+                self.tr(&b.right, &format!("(fun {} => (bind ({}_{} {} {}) (fun {} => (let {} := {} in ({} tt)))))", y, pre, opn, c, y, v, c, v, k))
+            }
+            Expr::MethodCall(m) if (m.method == "clear" || m.method == "push") && matches!(&*m.receiver, Expr::Path(p) if self.muts.contains(&path_str(&p.path))) => {
+                let name = match &*m.receiver { Expr::Path(p) => path_str(&p.path), _ => unreachable!() };
+                let c = self.coqname(&name);
+                if m.method == "clear" { return Ok(format!("(let {} := [] in ({} tt))", c, k)); }
+                if m.args.len() != 1 { return Err("push arity".into()); }
+                let v = self.fresh("v");
+                self.tr(&m.args[0], &format!("(fun {} => (let {} := ({} ++ [{}]) in ({} tt)))", v, c, c, v, k))
+            }
+            Expr::Index(ix) if !matches!(&*ix.index, Expr::Range(_)) => {
+                // v[i] on a vector: panics when out of range
+                let (v, i) = (self.fresh("t"), self.fresh("t"));
+                let inner = self.tr(&ix.index, &format!("(fun {} => (bind (vec_index {} {}) {}))", i, v, i, k))?;
+                self.tr(&ix.expr, &format!("(fun {} => {})", v, inner))
+            }
             Expr::Index(ix) if matches!(&*ix.index, Expr::Range(_)) => {
                 // &s[a..] / &s[..b] / &s[a..b] on a str: panics when out of range
                 let rg = match &*ix.index { Expr::Range(r) => r, _ => unreachable!() };
@@ -678,12 +740,15 @@ impl Cx {
                 let (p, irr) = self.pat(&f.pat, elem_ty)?;
                 if !irr { return Err("refutable loop pattern".into()); }
                 let saved_ret_ty = std::mem::replace(&mut self.ret_ty, "_".to_string()); self.retk_stack.push("(fun x => Ret (Break x))".into());
+                self.loop_state.push(st_tup.clone());
                 let body = self.stmts(&f.body.stmts, &format!("(fun _ => Ret (Next {}))", st_tup));
+                self.loop_state.pop();
                 self.retk_stack.pop(); self.ret_ty = saved_ret_ty;
                 self.env.truncate(mark); self.muts.truncate(mmark);
                 let body = body?;
                 let (src, r, v) = (self.fresh("a"), self.fresh("r"), self.fresh("v"));
-                let after = format!("(fun {} => match {} with Next {} => ({} tt) | Break {} => ({} {}) end)", r, r, st_pat.trim_start_matches('\''), k, v, outer_ret, v);
+                let sp = st_pat.trim_start_matches('\'');
+                let after = format!("(fun {} => match {} with Next {} => ({} tt) | Stop {} => ({} tt) | Break {} => ({} {}) end)", r, r, sp, k, sp, k, v, outer_ret, v);
                 self.tr(&f.expr, &format!("(fun {} => (bind (loopM (fun {} {} => {}) (to_list {}) {}) {}))", src, st_pat, p, body, src, st_tup, after))
             }
             Expr::MethodCall(m) if m.method == "try_for_each" && m.args.len() == 1 && matches!(&m.args[0], Expr::Closure(_)) => {
@@ -704,7 +769,7 @@ impl Cx {
                 self.env.truncate(mark); self.muts.truncate(mmark);
                 let (src, r) = (self.fresh("a"), self.fresh("r"));
                 let sp = st_pat.trim_start_matches('\'');
-                let after = format!("(fun {} => match {} with Next {} => ({} (Some tt)) | Break {} => ({} (@None unit)) end)", r, r, sp, k, sp, k);
+                let after = format!("(fun {} => match {} with Next {} => ({} (Some tt)) | Stop {} => ({} (Some tt)) | Break {} => ({} (@None unit)) end)", r, r, sp, k, sp, k, sp, k);
                 self.tr(&m.receiver, &format!("(fun {} => (bind (loopM (fun {} {} => {}) (to_list {}) {}) {}))", src, st_pat, p, body?, src, st_tup, after))
             }
             Expr::MethodCall(m) if ["for_each", "any", "flat_map"].contains(&m.method.to_string().as_str()) && m.args.len() == 1 && matches!(&m.args[0], Expr::Closure(_)) => {
@@ -759,6 +824,19 @@ impl Cx {
             }
             Expr::Call(c) => {
                 let f = match &*c.func { Expr::Path(p) => path_str(&p.path), _ => return Err("call of a non-path".into()) };
+                if let Some(g) = self.calls.get(&f).cloned() {
+                    let wpos = c.args.iter().position(|a| matches!(a, Expr::Path(p) if self.writers.contains(&path_str(&p.path))));
+                    if let Some(wi) = wpos {
+                        // f(.., stdout, ..): the callee starts from an empty output and returns (value, written)
+                        let w = match &c.args[wi] { Expr::Path(p) => self.coqname(&path_str(&p.path)), _ => unreachable!() };
+                        let rest: Vec<&Expr> = c.args.iter().enumerate().filter(|(i, _)| *i != wi).map(|(_, a)| a).collect();
+                        let names: Vec<String> = rest.iter().map(|_| self.fresh("a")).collect();
+                        let (rv, wv) = (self.fresh("r"), self.fresh("w"));
+                        let mut acc = format!("(bind ({} {}) (fun '({}, {}) => (let {} := ({} ++ {}) in ({} {}))))", g, names.join(" "), rv, wv, w, w, wv, k, rv);
+                        for (a, n) in rest.iter().zip(names.iter()).rev() { acc = self.tr(a, &format!("(fun {} => {})", n, acc))?; }
+                        return Ok(acc);
+                    }
+                }
                 let names: Vec<String> = c.args.iter().map(|_| self.fresh("a")).collect();
                 let head = if let Some(g) = self.calls.get(&f).cloned() { format!("(bind ({} {}) {})", g, names.join(" "), k) }
                            else if f == "Err" { format!("({} None)", k) }
@@ -1069,7 +1147,7 @@ fn find_fn<'a>(file: &'a File, t: &Target) -> Option<(&'a Signature, &'a Block, 
 fn translate(t: &Target, sig: &Signature, block: &Block, ret_tys: &HashMap<String, Ty>) -> R<(String, Ty)> {
     let mut cx = Cx { env: vec![], fresh: 0, calls: t.calls.iter().map(|(a, b)| (a.to_string(), b.to_string())).collect(),
                       call_ty: t.calls.iter().filter_map(|(a, b)| ret_tys.get(*b).map(|ty| (a.to_string(), ty.clone()))).collect(),
-                      renames: vec![], tuple_hint: vec![], ret_ty: String::new(), inline_k: false, muts: vec![], rebind_ok: false, writers: vec![], retk_stack: vec![] };
+                      renames: vec![], tuple_hint: vec![], ret_ty: String::new(), inline_k: false, muts: vec![], rebind_ok: false, writers: vec![], loop_state: vec![], retk_stack: vec![] };
     cx.inline_k = quote::ToTokens::to_token_stream(block).to_string().contains("let mut ");
     let self_coq = match t.impl_self { Some("Side") => ("side", Ty::Side), Some("UserBounds") => ("ubound", Ty::UB), Some("UserBoundsList") => ("ublist", Ty::Other), Some("FastOpt") => ("gfopt", Ty::Other), Some("StreamOpt") => ("gsopt", Ty::Other), _ => ("UNKNOWN", Ty::Other) };
     let mut rty = Ty::Other;
@@ -1099,12 +1177,17 @@ fn translate(t: &Target, sig: &Signature, block: &Block, ret_tys: &HashMap<Strin
                     cx.env.push((name.clone(), Ty::Bytes));
                     continue;
                 }
+                if matches!(&*pt.ty, Type::Reference(r) if r.mutability.is_some()) && matches!(ty, Ty::List(_)) {
+                    // a scratch vector handed in by the caller: a mutable variable whose initial value is the argument
+                    cx.muts.push(name.clone());
+                }
                 if coq.starts_with("UNKNOWN") { return Err(format!("parameter type of `{}`", name)); }
                 cx.env.push((name.clone(), ty));
                 write!(params, " ({} : {})", ident(&name), coq).unwrap();
             }
         }
     }
+    if !cx.muts.is_empty() { cx.inline_k = true; }
     if !cx.writers.is_empty() {
         // the result is paired with the bytes written: (value, output)
         cx.inline_k = true;
